@@ -140,7 +140,7 @@ fn read_request(s: &[u8]) -> Option<(Req, &[u8])> {
         return None;
     }
     let (m, t, v) = (parts[0], parts[1], parts[2]);
-    if m.is_empty() || !m.iter().all(|b| is_tchar(*b)) || t.is_empty() || !t.iter().all(|b| (33..=126).contains(b)) || !(v == b"HTTP/1.1" || v == b"HTTP/1.0") {
+    if m.is_empty() || !m.iter().all(|b| is_tchar(*b)) || t.is_empty() || !t.iter().all(|b| *b >= 33 && *b != 127) || !(v == b"HTTP/1.1" || v == b"HTTP/1.0") {
         return None;
     }
     let (hs, r1) = read_headers(r)?;
@@ -256,7 +256,7 @@ fn run(case: &Case, out: &mut Out) {
                 let mut full = bytes.clone();
                 if !es {
                     match body_size {
-                        BodySize::Length(n) => full.extend(std::iter::repeat(b'x').take(n)),
+                        BodySize::Length(n) => full.extend(std::iter::repeat(b'x').take(if n > 4096 { 0 } else { n })),
                         _ => full.extend_from_slice(b"0\r\n\r\n"),
                     }
                 }
@@ -265,6 +265,9 @@ fn run(case: &Case, out: &mut Out) {
                 out.obs(&t);
                 // oracle: what was written is exactly one request, the one sozu understood
                 let get = |n: &[u8]| hs.iter().find(|(k, _)| k.eq_ignore_ascii_case(n)).map(|(_, v)| v.clone()).unwrap_or_default();
+                if !es && matches!(body_size, BodySize::Length(n) if n > 4096) {
+                    continue; // body too large to materialise here
+                }
                 match strict_h1(&full) {
                     Some(l) if l.len() == 1 => {
                         let r = &l[0];
@@ -281,7 +284,7 @@ fn run(case: &Case, out: &mut Out) {
                             out.viol("h2-h1-headers", "header lines read by a strict backend are not the client's fields (+ one framing field)");
                         }
                         let want_body = match body_size {
-                            BodySize::Length(n) if !es => n,
+                            BodySize::Length(n) if !es && n <= 4096 => n,
                             _ => 0,
                         };
                         if r.body.len() != want_body {
@@ -423,23 +426,29 @@ fn run(case: &Case, out: &mut Out) {
 
 /// Which strict rule the forwarded bytes break (used to tell known findings apart).
 fn malformed_reason(w: &[u8]) -> &'static str {
-    let mut first = true;
+    let mut te_seen = false;
     for l in w.split(|b| *b == b'\n') {
         let l = l.strip_suffix(b"\r").unwrap_or(l);
-        if first {
-            first = false;
+        if l.is_empty() {
+            te_seen = false;
             continue;
         }
-        if l.is_empty() {
-            break;
+        if l.ends_with(b" HTTP/1.1") || l.ends_with(b" HTTP/1.0") {
+            continue;
         }
         if l.starts_with(b":") {
             return "empty-field-name";
         }
         if let Some(i) = l.iter().position(|b| *b == b':') {
             let (n, v) = (&l[..i], trim_ows(&l[i + 1..]));
-            if n.eq_ignore_ascii_case(b"transfer-encoding") && !v.eq_ignore_ascii_case(b"chunked") {
-                return "te-not-exactly-chunked";
+            if n.eq_ignore_ascii_case(b"transfer-encoding") {
+                if !v.eq_ignore_ascii_case(b"chunked") {
+                    return "te-not-exactly-chunked";
+                }
+                if te_seen {
+                    return "te-duplicate";
+                }
+                te_seen = true;
             }
             if n.eq_ignore_ascii_case(b"content-length") && !(!v.is_empty() && v.iter().all(|b| b.is_ascii_digit())) {
                 return "cl-not-digits";
